@@ -51,6 +51,9 @@ install_data('data/z.txt', 'data/a.txt', install_dir: get_option('datadir') / 'r
 install_headers('inc/pub_z.h', 'inc/pub_a.h', subdir: 'rich')
 install_man('man/rich.1', 'man/arich.3')
 install_subdir('tree', install_dir: get_option('datadir') / 'rich')
+# one install_data() call whose files get different implicit tags (none for .txt, devel for .pc), in both orders
+install_data('m1.txt', 'x.pc', install_dir: get_option('libdir') / 'pkgconfig')
+install_data('y.pc', 'm2.txt', install_dir: get_option('libdir') / 'pkgconfig')
 # several excluded names: sets on the way to the install plan
 install_subdir('tree2', install_dir: get_option('datadir') / 'rich-partial', exclude_files: ['zz.txt', 'aa.txt', 'mm.txt', 'k/q.txt', 'bb.txt'], exclude_directories: ['zd', 'ad', 'md', 'bd', 'k/qd'])
 eu = environment()
@@ -95,6 +98,7 @@ option('aa_first', type: 'string', value: '')
     'main.c': '#include "g.h"\nint mf(void); int g1(void); int spa(void); int spb(void); int main(void) { return mf() + g1() + spa() + spb() - 5; }\n',
     'tool.c': 'int bf(void); int main(void) { return bf() - 2; }\n',
     'inc/pub_z.h': '', 'inc/pub_a.h': '', 'inc2/x.h': '', 'data/z.txt': 'z', 'data/a.txt': 'a', 'man/rich.1': '', 'man/arich.3': '',
+    'm1.txt': 'm1', 'x.pc': 'Name: x\n', 'y.pc': 'Name: y\n', 'm2.txt': 'm2',
     'tree/z/f1': '1', 'tree/a/f2': '2', 'tree/m.txt': 'm', 'tree2/keep.txt': 'k', 'tree2/aa.txt': 'a', 'tree2/zz.txt': 'z', 'tree2/k/q.txt': 'q', 'tree2/k/r.txt': 'r',
     'tree2/zd/x': 'x', 'tree2/ad/y': 'y', 'tree2/keepd/w': 'w', 'tree2/k/qd/v': 'v', 'src1/z.c': 'int main(void){return 0;}\n', 'src1/a.c': 'int main(void){return 0;}\n',
     'src2/meson.build': "executable('s2_z', 'z.c')\nexecutable('s2_a', 'a.c', install: true, install_dir: 'libexec')\nsubdir('deep')\n",
